@@ -23,6 +23,38 @@ ARM_TEXT = {
 }
 
 
+_ARM_LINES = {}
+
+
+def arm_lines(kind):
+    """Line(s) of the child's run loop after which the parent's constructor can have returned: the statement that
+    matches ARM_TEXT in the CURRENT source; if the text is gone (refactoring), fall back to the structure: thread = the
+    last statement before the try block, process = the first statement of the try body, remote = the third statement of
+    the inner try body (runtime info sent and acknowledged)."""
+    import ast
+    if kind in _ARM_LINES:
+        return _ARM_LINES[kind]
+    fn = {'thread': 'thread.py', 'process': 'process.py', 'remote': 'remote.py'}[kind]
+    name = '_run_backend' if kind == 'remote' else '_run'
+    src = open(os.path.join(REPO, 'pyworkers', fn)).read()
+    tree = ast.parse(src)
+    f = [n for n in ast.walk(tree) if isinstance(n, ast.FunctionDef) and n.name == name][0]
+    lines = src.splitlines()
+    out = [i for i in range(f.lineno, f.end_lineno + 1) if any(t in lines[i - 1] for t in ARM_TEXT[kind])]
+    if not out:
+        outer = [n for n in f.body if isinstance(n, ast.Try)][0]
+        if kind == 'thread':
+            prev = [n for n in f.body if n.end_lineno < outer.lineno]
+            out = [prev[-1].end_lineno] if prev else [outer.lineno]
+        elif kind == 'process':
+            out = [outer.body[0].end_lineno]
+        else:
+            inner = [n for n in outer.body if isinstance(n, ast.Try)][0]
+            out = [inner.body[min(2, len(inner.body) - 1)].end_lineno]
+    _ARM_LINES[kind] = out
+    return out
+
+
 def _env_for_children(plan_path):
     os.environ['PYWORKERS_VERIF'] = '1'
     os.environ['PYWORKERS_VERIF_PLAN'] = plan_path
@@ -186,7 +218,7 @@ class Harness:
             self.reports.get_nowait()
         cls = T.CLASSES[(kind, pers)] if case.get('stateful') else _plain(kind, pers)
         plan = {'cls': cls.__name__, 'n': case.get('n', 0), 'fault': case.get('fault', 'none'),
-                'arm_text': ARM_TEXT[kind], 'repo': REPO, 'target_files': [TARGETS_FILE],
+                'arm_text': ARM_TEXT[kind], 'arm_lines': arm_lines(kind), 'repo': REPO, 'target_files': [TARGETS_FILE],
                 'out_dir': cdir, 'sock': self.sock_path, 'pause_bound': 15,
                 'granularity': case.get('granularity', 'line')}
         self._write_plan(plan)
@@ -207,7 +239,7 @@ class Harness:
         if ffault:
             # the fault is placed in the PARENT-side forwarding thread: pause it at line event n, SIGKILL the backend, resume it
             self._write_plan({})                 # no tracer in the backend
-            plan = dict(plan, anchor='_run_frontend', fault='pause', arm_text=['self._startup_sync.set()'])
+            plan = dict(plan, anchor='_run_frontend', fault='pause', arm_text=['self._startup_sync.set()'], arm_lines=[])
             st = vfagent.install(plan)
         if kind == 'thread':
             st = vfagent.install(plan)
